@@ -32,6 +32,7 @@ fn driver(prop: &str) -> Option<(&'static str, fn(&mut Cx, &mut Rng) -> R)> {
         "C11" => ("C11", props::c11::case),
         "C12" => ("C12", props::c12::case),
         "C13" => ("C13", props::c13::case),
+        "C14" => ("C14", props::c14::case),
         "C15" => ("C15", props::c15::case),
         "C16" => ("C16", props::c16::case),
         "C19" => ("C19", props::c19::case),
